@@ -837,6 +837,8 @@ def c16_plan(pid, tier, seed, t0):
         jobs.append(("stress", [conc, "stress", str([2, 4, 16][k % 3]), str(ops), str(seed * 1000 + k)]))
     for k in range(12 if tier == "quick" else 300):
         jobs.append(("burst", [conc, "burst", str([2, 4, 8][k % 3]), str(3000 if tier == "quick" else 20000), str(seed * 31 + k)]))
+    for k in range(16 if tier == "quick" else 400):
+        jobs.append(("runtimes", [conc, "runtimes", str([2, 4, 8, 4][k % 4]), str(250 if tier == "quick" else 4000), str(seed * 53 + k)]))
     first_runs = 200 if tier == "quick" else 10000
     for k in range(first_runs):
         spins = rnd.choice([0, 0, 1000, 10000, 100000, 1000000, 3000000])
@@ -847,6 +849,8 @@ def c16_plan(pid, tier, seed, t0):
             jobs.append(("tsan-stress", [tsan, "stress", str([4, 8][k % 2]), "400", str(seed * 77 + k)]))
         for k in range(4 if tier == "quick" else 40):
             jobs.append(("tsan-burst", [tsan, "burst", str([2, 4][k % 2]), "500", str(seed * 13 + k)]))
+        for k in range(4 if tier == "quick" else 40):
+            jobs.append(("tsan-runtimes", [tsan, "runtimes", str([2, 4][k % 2]), "12", str(seed * 17 + k)]))
         for k in range(20 if tier == "quick" else 200):
             jobs.append(("tsan-first", [tsan, "first", str(rnd.choice([4, 8])), str(rnd.choice([0, 10000, 300000])), str(k)]))
     else:
@@ -900,7 +904,11 @@ def c16_plan(pid, tier, seed, t0):
         "perform mixed compile (through the shared default runtime) / clone / search / drop operations; every result is compared with the sequential "
         "result computed beforehand; shared inputs must print unchanged; 'churn' operations compile never-seen texts whose tree and result are known a "
         "priori; 'burst' rounds release all threads through a spin barrier into a search of the SAME shared expression at the same instant, each on "
-        "its own document. (3) first-use race: the process is re-executed; all threads' first library "
+        "its own document; 'runtimes' rounds share ONE fresh runtime object per round between all threads: after a sequential warm-up of random "
+        "length (0..100 calls) the threads are released together, each compiles its own *_by / map expressions (same shapes and offsets, different "
+        "members) through the shared runtime and searches each four times while calling type() on every JSON type and all 26 built-ins in a "
+        "thread-specific rotation, and the runtime is swept sequentially afterwards; truth comes from private runtimes used before the round. "
+        "(3) first-use race: the process is re-executed; all threads' first library "
         "call is a compile released by one barrier while the verif-hooks delay point widens the window between Runtime::new() and "
         "register_builtin_functions(); every thread then calls all 26 built-ins and must agree with the sequential results. (4) the same workload "
         "(reduced) under Miri with %d scheduler seeds (data-race detector, borrow model) and under ThreadSanitizer (-Zbuild-std). Non-trivial / "
@@ -988,6 +996,8 @@ def c17_plan(pid, tier, seed, t0):
             cid, _, kind = key.partition(".")
             if kind.startswith("big."):
                 cid, kind = cid + ".big", kind[4:]
+            if kind.startswith("names."):
+                cid, kind = cid + ".names", kind[6:]
             if c == "n-default":
                 kinds[kind] = kinds.get(kind, 0) + 1
                 merged["distinct"].add(hash(ln) & 0xFFFFFFFFFFFF)
@@ -1010,7 +1020,9 @@ def c17_plan(pid, tier, seed, t0):
         "rule": "ONE deterministic program (harness/matrix) is built five ways — nightly {default, sync, specialized, sync+specialized} and stable default — "
         "and run with the same seed; its outcome logs (one line per case: result as JSON, or error class+kind+offset+line+column) must be identical line "
         "for line. Cases: value-guided random expressions (with calls) x documents passed as each of Value, &Value, Variable, &Variable, Rcvar, &Rcvar "
-        "(the six must also agree with each other inside a build); 20 scalar expressions x inputs of every specially-handled scalar type (i8..i64, "
+        "(the six must also agree with each other inside a build); plain member paths over documents whose member names mean something to other addressing "
+        "schemes ('a/b', '~0', '~1', '', '0', '-1', 'a.b') and arithmetic that leaves the doubles (sum/avg of 1e308s), again through all six input "
+        "types; 20 scalar expressions x inputs of every specially-handled scalar type (i8..i64, "
         "u8..u64, isize, usize at MIN/MAX/0/+-1/random; finite f32/f64 incl. -0.0, subnormals, 2^53+1; (), bool, String, &str incl. astral); inside "
         "each build x.to_jmespath() must equal serde_json's image of x. Non-trivial / distinct = distinct log lines of the reference configuration.",
         "min_evaluations": 100_000,
